@@ -131,9 +131,11 @@ class _Instantiate(ast.NodeTransformer):
 
 
 class Unextractor:
-    def __init__(self, trees, ref_names):
+    def __init__(self, trees, ref_names, is_helper=None, carry=True):
         self.trees = trees
         self.ref_names = ref_names
+        self.is_helper = is_helper or (lambda name: name not in ref_names)
+        self.carry = carry
         self.classes = {}          # simple class name -> (module, ClassDef)
         for m, t in trees.items():
             for st in t.body:
@@ -147,13 +149,13 @@ class Unextractor:
         self.helpers = {}
         for m, t in self.trees.items():
             for st in t.body:
-                if isinstance(st, ast.FunctionDef) and st.name not in self.ref_names:
+                if isinstance(st, ast.FunctionDef) and self.is_helper(st.name):
                     h = _Helper(m, None, st)
                     if h.ok:
                         self.helpers[(m, st.name)] = h
                 elif isinstance(st, ast.ClassDef):
                     for x in st.body:
-                        if isinstance(x, ast.FunctionDef) and x.name not in self.ref_names:
+                        if isinstance(x, ast.FunctionDef) and self.is_helper(x.name):
                             h = _Helper(m, st.name, x)
                             if h.ok:
                                 self.helpers[(st.name, x.name)] = h
@@ -286,7 +288,7 @@ class Unextractor:
         b = self.bind(h, call)
         if b is None:
             return None
-        if module is not None and not self._carry_imports(h, module):
+        if module is not None and self.carry and not self._carry_imports(h, module):
             return None
         self.counter += 1
         tag = "__%s%d" % (h.name.strip("_"), self.counter)
@@ -533,3 +535,21 @@ def unextract(cur_trees, ref_names):
     """Inline the helpers the reference does not know.  Returns (names inlined, definitions dropped)."""
     u = Unextractor(cur_trees, ref_names)
     return u.run()
+
+
+def fully_inlined(program, func, depth=3):
+    """Copy of a function of the model with its calls of private methods / functions of the package written out (to `depth`):
+    what the function does, whatever the way its body was cut into helpers.  Used to compare siblings whose helpers were
+    merged or inlined on one side only."""
+    trees = {m.name: m.tree for m in program.modules.values()}
+    u = Unextractor(trees, set(), is_helper=lambda name: name.startswith("_") and not name.startswith("__"), carry=False)
+    u.collect()
+    node = copy.deepcopy(func.node)
+    cname = func.cls.name if func.cls is not None else None
+    for _ in range(depth):
+        before = len(u.inlined)
+        node.body = u.rewrite_block(node.body, func.module.name, cname, func.node)
+        if len(u.inlined) == before:
+            break
+    ast.fix_missing_locations(node)
+    return node
